@@ -11,7 +11,7 @@ import (
 // equality if both layers apply the same function to the same encoding; the counterexample is
 // confirmed against the real hashes by the native replay.
 
-//verif: cover=checked bounds="any key (Ed25519 algorithm id, 2 symbolic data bytes): quicswarm.DefaultFingerprinter(key) == p2pkeswarm.DefaultFingerprinter(key)"
+// verif: cover=checked bounds="any key (Ed25519 algorithm id, 2 symbolic data bytes): quicswarm.DefaultFingerprinter(key) == p2pkeswarm.DefaultFingerprinter(key)"
 func VH_C17_fingerprintSameAcrossLayers() bool {
 	key := x509.PublicKey{Algorithm: x509.Algo_Ed25519, Data: vBytesN(2)}
 	a := DefaultFingerprinter(key)
